@@ -61,6 +61,8 @@ def worker(k, queue, checks, matrix):
                             sigs.append(sg)
                 if rc != 0:
                     row[c] = {"exit": rc, "signature": sigs[0] if sigs else "", "signatures": sigs[:6]}
+                    if rc != 1:
+                        row[c]["machinery"] = [l[:300] for l in o.splitlines() if "MACHINERY" in l or "panicked" in l][:3]
         sh("git reset -q --hard", cwd=W + "/repo")
         det = sorted(kk for kk, v in row.items() if isinstance(v, dict) and v.get("exit") == 1)
         with lock:
